@@ -40,8 +40,8 @@ def cc_delta(dx, MInt, VInt):
         d = 1.0 - (1.0 / u - 1.0 / np.expm1(u))
     d = np.where(u == 0, 0.5, d)
     # series for small |u|: 1/u - 1/(e^u-1) = 1/2 - u/12 + ...
-    small = np.abs(u) < 1e-5
-    d = np.where(small, 1.0 - (0.5 - u / 12.0), d)
+    small = np.abs(u) < 1e-2
+    d = np.where(small, 0.5 + u / 12.0 - u ** 3 / 720.0, d)
     return d, u
 
 
@@ -86,6 +86,23 @@ def step_line(phi_line, dt, J):
     return np.linalg.solve(A, np.asarray(phi_line, float) / dt), A
 
 
+def thomas_growth(A):
+    """Growth factor of Gaussian elimination WITHOUT pivoting (the documented tridiagonal solver) on the tridiagonal matrix A:
+    largest entry over smallest pivot. The matrix itself can be perfectly conditioned while a pivot vanishes (strong advection
+    with central weights and a long step); the documented algorithm then loses accuracy in proportion to this factor."""
+    n = A.shape[0]
+    bet = A[0, 0]
+    small = abs(bet)
+    for i in range(1, n):
+        if bet == 0:
+            return np.inf
+        bet = A[i, i] - A[i, i - 1] * A[i - 1, i] / bet
+        small = min(small, abs(bet))
+    if small == 0:
+        return np.inf
+    return float(np.abs(A).max() / small)
+
+
 def step_axis(phi, grids, axis, nu, ms, gamma, h, dt, delj_trick, beta=1.0, want_cond=False):
     """One implicit step of an n-D density along `axis`. grids: list of per-axis grids; ms: migration rates into this
     population from each other population, in increasing order of the other axes. Returns (new_phi, info)."""
@@ -112,6 +129,7 @@ def step_axis(phi, grids, axis, nu, ms, gamma, h, dt, delj_trick, beta=1.0, want
         out[sl] = new
         if want_cond:
             maxcond = max(maxcond, float(np.linalg.cond(A)))
+            maxcond = max(maxcond, thomas_growth(A))
         if delj_trick:
             au = np.abs(info['u'])
             maxu = max(maxu, float(au.max()))
